@@ -3,11 +3,12 @@
 mod binned_index;
 mod linear_index;
 
+use indexmap::IndexMap;
 use noodles_bgzf as bgzf;
 use noodles_core::Position;
 
 pub use self::{binned_index::BinnedIndex, linear_index::LinearIndex};
-use super::bin::Chunk;
+use super::{Bin, bin::Chunk};
 
 /// A binning index reference sequence index.
 pub trait Index {
@@ -20,4 +21,11 @@ pub trait Index {
 
     /// Adds a record to the index.
     fn update(&mut self, min_shift: u8, depth: u8, start: Position, end: Position, chunk: Chunk);
+
+    /// Finishes the index after the last record was added.
+    ///
+    /// `bins` are the bins of the reference sequence. By default, this does nothing.
+    fn finish(&mut self, bins: &IndexMap<usize, Bin>) {
+        let _ = bins;
+    }
 }
